@@ -1,5 +1,6 @@
 import BtcwVerif.Lemmas.KMap
 import BtcwVerif.Lemmas.RefRange
+import BtcwVerif.Lemmas.RefExact
 /-!
 # C13 — transaction history shows each known transaction once, at its current status
 
@@ -460,5 +461,89 @@ theorem C13_removed (es : List Event) (hc : ConsistentHistory {} es) (h : Nat)
   intro ds hds d hd e'
   obtain ⟨ob, hob⟩ := batch_known h3 (range_known _ b e) ds hds d hd
   exact hk _ hob e'
+
+/-! ## Ledger level, EXACT order (tx3)
+
+`C13_credit`, `C13_debit`, `C13_range` above compare the record lists up to order.  Every bucket of the store is in
+bbolt key order after every sequence of store calls (`SortedS`, `sortedS_storeAfter` in Lemmas/SortedStore.lean: every
+write is a `Put` or a `Delete`), so the order in which the cursors deliver the records is determined; the theorems
+below state the answers as LISTS (Lemmas/RefExact.lean). -/
+
+/-- **C13, the whole record, exactly**: after every chain-consistent history `TxDetails h` answers exactly the ledger's
+`details h` — nothing for an unknown hash, otherwise the transaction, its current block, its credit records in
+ascending output index and its debit records in ascending input index (equality of lists, not of sets) -/
+theorem C13_details_exact (es : List Event) (hc : ConsistentHistory {} es) (h : Nat) :
+    ∃ s, storeAfter Store.empty {} es = .ok s ∧ txDetails s h = .ok (Ledger.details (ledgerAfter {} es) h) := by
+  obtain ⟨s, h1, hg, hn, hs⟩ := good_sorted_reachable es hc
+  exact ⟨s, h1, details_refines_exact hg hn hs h⟩
+
+/-- **C13, credit records, exactly**: for a known transaction `t` the credit records `TxDetails` reports are, as a LIST,
+the credited outputs of `t` in ascending output index — one record per credited output `i`, with the output's value, its
+change flag and `spent` set exactly when some known transaction spends it -/
+theorem C13_credit_exact (es : List Event) (hc : ConsistentHistory {} es) (t : Tx) (ob : Option BlockMeta)
+    (ht : (t, ob) ∈ known (ledgerAfter {} es)) :
+    ∃ s d, storeAfter Store.empty {} es = .ok s ∧ txDetails s t.hash = .ok (some d) ∧
+      d.credits = ((withIdx t.outs).filterMap fun (i, v) =>
+        match lookup (ledgerAfter {} es).credit ⟨t.hash, i⟩ with
+        | some chg => some (⟨i, v, Ledger.spent (ledgerAfter {} es) ⟨t.hash, i⟩, chg⟩ : CreditRecord)
+        | none => none) ∧
+      (d.credits.map (·.index)).Pairwise (· < ·) := by
+  obtain ⟨s, h1, hg, hn, hs⟩ := good_sorted_reachable es hc
+  have hd := details_refines_exact hg hn hs t.hash
+  rw [details_known hg.lwf ht] at hd
+  exact ⟨s, _, h1, hd, rfl, detailsOf_credits_sorted _ t ob⟩
+
+/-- **C13, debit records, exactly**: the debit records are, as a LIST, the inputs of `t` that spend a credited output of
+a known transaction, in ascending input index, each with that output's value -/
+theorem C13_debit_exact (es : List Event) (hc : ConsistentHistory {} es) (t : Tx) (ob : Option BlockMeta)
+    (ht : (t, ob) ∈ known (ledgerAfter {} es)) :
+    ∃ s d, storeAfter Store.empty {} es = .ok s ∧ txDetails s t.hash = .ok (some d) ∧
+      d.debits = ((withIdx t.ins).filterMap fun (j, inp) =>
+        match creditValue (ledgerAfter {} es) inp with
+        | some v => some (⟨j, v⟩ : DebitRecord)
+        | none => none) ∧
+      (d.debits.map (·.index)).Pairwise (· < ·) := by
+  obtain ⟨s, h1, hg, hn, hs⟩ := good_sorted_reachable es hc
+  have hd := details_refines_exact hg hn hs t.hash
+  rw [details_known hg.lwf ht] at hd
+  exact ⟨s, _, h1, hd, rfl, detailsOf_debits_sorted _ t ob⟩
+
+/-- **C13, range queries, exactly**: `RangeTransactions begin end` answers exactly `Ledger.range` in which the
+unconfirmed batch lists the pool in ASCENDING HASH order (`rangeWith … pool'`, `pool'` a permutation of the pool with
+strictly ascending hashes — which determines `pool'`; `rangeWith L L.pool = Ledger.range L`): the same batches in the same
+order (unconfirmed batch first / last by the −1 rule, blocks ascending / descending), every block batch EQUAL to the
+ledger's — the block's transactions in the order the wallet learned them (the block record's list is appended to in
+delivery order, and so is the ledger's) — and every record equal to the ledger's, record order included -/
+theorem C13_range_exact (es : List Event) (hc : ConsistentHistory {} es) (b e : Int) :
+    ∃ s pool', storeAfter Store.empty {} es = .ok s ∧ pool'.Perm (ledgerAfter {} es).pool ∧
+      (pool'.map (·.hash)).Pairwise (· < ·) ∧
+      rangeTransactions s b e = .ok (rangeWith (ledgerAfter {} es) pool' b e) := by
+  obtain ⟨s, h1, hg, hn, hs⟩ := good_sorted_reachable es hc
+  obtain ⟨hp, ho⟩ := unmined_order hg hs
+  exact ⟨s, _, h1, hp, ho, range_refines_exact hg hn hs b e⟩
+
+/-- the block batches alone (no −1 bound: no unconfirmed batch): the answer IS `Ledger.range` -/
+theorem C13_range_blocks_exact (es : List Event) (hc : ConsistentHistory {} es) (b e : Int) (hb : ¬ b < 0)
+    (he : ¬ e < 0) :
+    ∃ s, storeAfter Store.empty {} es = .ok s ∧ rangeTransactions s b e = .ok (Ledger.range (ledgerAfter {} es) b e) := by
+  obtain ⟨s, h1, hg, hn, hs⟩ := good_sorted_reachable es hc
+  refine ⟨s, h1, ?_⟩
+  rw [range_refines_exact hg hn hs b e, range_eq]
+  unfold rangeWith
+  simp [hb, he]
+
+/-- non-vacuity: credits delivered in the order output 1, output 0 are listed in ascending output index; two
+unconfirmed transactions delivered in the order hash 9, hash 4 are listed in ascending hash order -/
+def exOrder : List Event :=
+  [.confirmed ⟨⟨1, 11⟩, 100⟩ ⟨2, [⟨77, 0⟩], [300, 400]⟩ [(1, true), (0, false)],
+   .seen ⟨9, [⟨2, 1⟩], [150]⟩ [(0, false)],
+   .seen ⟨4, [⟨2, 0⟩], [250]⟩ [(0, true)]]
+
+example : (storeAfter Store.empty {} exOrder >>= fun s => txDetails s 2) =
+    .ok (some ⟨⟨2, [⟨77, 0⟩], [300, 400]⟩, some ⟨⟨1, 11⟩, 100⟩, [⟨0, 300, true, false⟩, ⟨1, 400, true, true⟩], []⟩) := by
+  decide
+example : (storeAfter Store.empty {} exOrder >>= fun s => rangeTransactions s 0 (-1)).map
+    (·.map (·.map (·.tx.hash))) = .ok [[2], [4, 9]] := by decide
+example : (ledgerAfter {} exOrder).pool.map (·.hash) = [9, 4] := by decide
 
 end TxStore.C13
